@@ -169,6 +169,48 @@ def run(ctx):
                 ctx.ob('C26-D5', name, 'HTTP request', 'receiver is the context resolver (dyn / injected)', ok and origin_ok or name.startswith('settings::signer::'),
                        detail='receiver: %s ; callee %s' % (recv[:120], t['f'][:100]), site=loc(t['span']))
     ctx.floor('HTTP request call sites outside http::', nsink, 8, rule='C26-D5')
+    # ---- D5b: a fresh Context::new() must not be what carries a request to the network inside an operation that was
+    # given a configured context: its default resolver knows nothing of the caller's allow-list
+    sinks = set()
+    for name in prog.fns():
+        fn = prog.fn(name)
+        if in_http(fn):
+            continue
+        for bi, t in fn.calls():
+            if re.search(r'http::(Sync|Async)HttpResolver::http_resolve(_async)?$', t['fd']):
+                sinks.add(name)
+    reach_sink = prog.callers_closure(sinks)
+    nfresh = 0
+    for name in prog.fns():
+        fn = prog.fn(name)
+        if fn.d['span']['file'] == 'sdk/src/context.rs':
+            continue
+        for bi, t in fn.calls():
+            c = t.get('r') or t['fd']
+            if not re.search(r'^context::Context::new$|^<context::Context as std::default::Default>::default$', c):
+                continue
+            nfresh += 1
+            # does the fresh context flow into a call that reaches a sink?
+            dl = t['dest']['l']
+            flows = []
+            for b2, t2 in fn.calls():
+                if b2 == bi:
+                    continue
+                if any(('l' in a) and any(o == ('call', bi) for o in fn.origins(a)) for a in t2['args']):
+                    if any(x in reach_sink for x in prog.callee_targets(t2)):
+                        flows.append(t2['fd'])
+            root = bool(fn.d.get('deprecated')) or ' as std::default::Default>::default' in name
+            base_name = re.sub(r'::\{closure#\d+\}', '', name)
+            if base_name in prog.bodies and prog.bodies[base_name].get('deprecated'):
+                root = True
+            if not flows:
+                ctx.ob('C26-D5', name, 'fresh Context::new()', 'does not carry a network request', True, site=loc(t['span']), nontrivial=False)
+                continue
+            ctx.ob('C26-D5', name, 'fresh Context::new() passed to ' + flows[0].split('::')[-1], 'only in deprecated context-less API roots', root,
+                   detail=('deprecated context-less public constructor: the fresh context is the operation\'s root context' if root else
+                           'a default Context is created inside an operation and used for a network request at %s: its resolver ignores the allow-list/redirect settings of the context the operation was started with' % loc(t['span'])),
+                   site=loc(t['span']))
+    ctx.floor('fresh Context::new() sites outside context.rs', nfresh, 10, rule='C26-D5')
     # ---- D6 derived-cache coherence
     cadt = prog.adts.get('context::Context')
     if ctx.require(cadt is not None, 'context::Context (adt)'):
